@@ -953,6 +953,7 @@ Proof.
          lazymatch goal with | _ : In (c, _) (news (trace s0)) |- _ => fail
          | _ => let a := fresh "a" in let I := fresh "I" in destruct (news_has _ _ _ N G) as [a I] end end.
   all: try (apply acc_cs_in; right; eauto; fail).
+  all: try (apply andb_true_intro; split; apply acc_cs_in; right; eauto; fail).
   all: try (apply andb_true_intro; split; [apply acc_cs_in; right; eauto|apply acc_ps_in; right]).
   all: try (eapply L; eauto; fail).
   all: try (eapply readq_arrived; eauto; match goal with E : readq _ = _ |- _ => rewrite E; left; reflexivity end).
@@ -1105,3 +1106,74 @@ Lemma src_read_after_close :
     (exists s', exec src_cfg s (ConnEof 0) = Some s' /\ List.last (trace s') EStop = EEof 0) /\
     chunks_ok (trace s ++ [ERead 0 (D 1 0 9000%N) false 2048%N 2048%N]) = false.
 Proof. eexists. split; [vm_compute; reflexivity|]. split; [reflexivity|]. split; [eexists; split; vm_compute; reflexivity|reflexivity]. Qed.
+
+(* ---- no end of stream without a cause ---- *)
+Fixpoint acc_rs (rs : list cid) (tr : list ev) : list cid :=
+  match tr with [] => rs | e :: r => match e with ERet c => acc_rs (c :: rs) r | _ => acc_rs rs r end end.
+Fixpoint acc_idle (idle : option cid) (tr : list ev) : option cid :=
+  match tr with [] => idle | e :: r => acc_idle (match e with EIdle c => Some c | _ => None end) r end.
+
+Lemma eofc_go_app tr1 tr2 : forall rs idle,
+  eofc_go rs idle (tr1 ++ tr2) = eofc_go rs idle tr1 && eofc_go (acc_rs rs tr1) (acc_idle idle tr1) tr2.
+Proof. induction tr1 as [|e r IH]; intros rs idle; [reflexivity|].
+  destruct e; cbn [app eofc_go acc_rs acc_idle]; rewrite ?IH; rewrite ?andb_assoc; reflexivity. Qed.
+
+Lemma acc_rs_in c tr : forall rs, (In c rs \/ In (ERet c) tr) -> nat_in c (acc_rs rs tr) = true.
+Proof. induction tr as [|e r IH]; intros rs H.
+  - cbn. destruct H as [H|[]]. unfold nat_in. apply existsb_exists. exists c. split; [exact H|apply Nat.eqb_refl].
+  - destruct e; cbn [acc_rs]; apply IH; destruct H as [H|[H|H]]; try discriminate; auto.
+    + left. right. exact H. + inversion H; subst. left. left. reflexivity. Qed.
+
+Definition ret_inv (s : state) : Prop :=
+  forall c k, get s c = Some k -> (cphase k <> Running \/ sclosed k = true \/ rclosed k = true) -> In (ERet c) (trace s).
+
+Lemma ret_inv_step g s t s' : ret_inv s -> exec g s t = Some s' -> ret_inv s'.
+Proof.
+  intros A H. exec_cases H; intros cx kx G Hp; conn_cases G; unfold with_conn, with_conn_note; cbn [trace]; rewrite ?app_nil_r.
+  all: cbn [cphase sclosed rclosed set_readq set_last set_phase set_rclosed set_sclosed new_conn] in Hp.
+  all: try (apply in_or_app; right; left; reflexivity).
+  all: try (apply in_or_app; left).
+  all: try (eapply A; eauto; fail).
+  all: try (destruct Hp as [Hp|[Hp|Hp]]; congruence).
+  all: try (eapply A; [eassumption|left; congruence]).
+Qed.
+
+Lemma ret_inv_init : ret_inv init.
+Proof. intros [|c] k H; discriminate H. Qed.
+
+Lemma eofc_ok_step g s t s' : ret_inv s -> eofc_ok (trace s) = true -> exec g s t = Some s' -> eofc_ok (trace s') = true.
+Proof.
+  intros A F H. unfold eofc_ok in *.
+  exec_cases H; unfold with_conn, with_conn_note; cbn [trace]; rewrite ?app_nil_r; auto;
+    rewrite eofc_go_app, F; cbn [eofc_go andb]; rewrite ?andb_true_r; auto.
+  all: try (rewrite Nat.eqb_refl; reflexivity).
+  all: try (apply orb_true_iff; right; apply acc_rs_in; right; eapply A; [eassumption|]).
+  all: match goal with E : _ || _ = true |- _ => apply orb_true_iff in E; destruct E as [E|E]; apply andb_prop in E; destruct E as [E1' E2'] end.
+  all: try (right; right; assumption).
+  all: right; left; assumption.
+Qed.
+
+Lemma eofc_ok_run g ts s : run g init ts = Some s -> eofc_ok (trace s) = true.
+Proof. intro H.
+  eapply (run_inv (fun s => ret_inv s /\ eofc_ok (trace s) = true) g) in H; [apply H| |split; [apply ret_inv_init|reflexivity]].
+  intros s0 t s1 [A F] E. split; [eapply ret_inv_step|eapply eofc_ok_step]; eauto. Qed.
+
+(* Read returns io.EOF through the closed path only after Close has begun *)
+Lemma eof_needs_close g ts s s' c k :
+  run g init ts = Some s -> exec g s (ConnEof c) = Some s' -> get s c = Some k -> In (ERet c) (trace s).
+Proof.
+  intros R H G. eapply (run_inv ret_inv g) in R; [|intros; eapply ret_inv_step; eauto|apply ret_inv_init].
+  unfold exec in H. destruct (panicked s); [discriminate|]. rewrite G in H. destruct (last k); [discriminate|].
+  destruct (rclosed k && match readq k with [] => true | _ :: _ => false end || read_selects_closed g && sclosed k) eqn:E; [|discriminate].
+  apply orb_true_iff in E. destruct E as [E|E]; apply andb_prop in E; destruct E as [E1 E2]; eapply R; eauto. Qed.
+
+(* a datagram that fits the caller's buffer exactly is consumed entirely: nothing is kept *)
+Lemma exact_fit_clears g s c k p q n :
+  panicked s = false -> get s c = Some k -> last k = None -> readq k = p :: q -> (size p <= n)%N ->
+  exists s' k', exec g s (ConnRead c n) = Some s' /\ get s' c = Some k' /\ last k' = None /\ readq k' = q /\
+    trace s' = trace s ++ [ERead c p true 0%N (size p)].
+Proof.
+  intros P G L Q Le. unfold exec. rewrite P, G, L, Q. rewrite (N.min_r n (size p)) by exact Le.
+  rewrite N.ltb_irrefl. eexists. eexists. split; [reflexivity|]. unfold get, with_conn; cbn [conns trace].
+  rewrite nth_error_upd_same by (eapply get_lt; eauto). repeat split; reflexivity. Qed.
+
